@@ -106,6 +106,8 @@ pub struct ClientSim {
     pub livelock: Cell<bool>,
     pub panics: RefCell<Vec<(TaskId, String)>>,
     pub step_budget: Cell<u64>,
+    pub allow_huge: Cell<bool>,
+    pub excluded_known: Cell<u32>,
 }
 
 #[derive(Default)]
@@ -167,6 +169,8 @@ pub fn outcome_of(r: Result<u64, RpcError>) -> Outcome {
 pub const BODY_BASE: u64 = 1_000;
 pub const PAYLOAD_BASE: u64 = 1_000_000;
 pub const MAX_STEPS: u64 = 20_000;
+/// Largest absolute virtual offset (s) a deadline may have without hitting finding F3 (2^36 ms = 68,719,476 s).
+pub const SUPPORTED_SPAN_SECS: u64 = 66_000_000;
 
 impl ClientSim {
     /// Must be called inside the paused runtime with the virtual clock enabled.
@@ -210,6 +214,8 @@ impl ClientSim {
             livelock: Cell::new(false),
             panics: RefCell::new(vec![]),
             step_budget: Cell::new(0),
+            allow_huge: Cell::new(false),
+            excluded_known: Cell::new(0),
         })
     }
 
@@ -322,11 +328,20 @@ impl ClientSim {
         let call = self.calls.borrow().len();
         let body = BODY_BASE + call as u64;
         let now = std::time::Instant::now();
-        let deadline = match dl {
+        let mut deadline = match dl {
             Dl::InUs(us) => now + Duration::from_micros(us),
             Dl::PastUs(us) => now - Duration::from_micros(us),
             Dl::InSecs(s) => now + Duration::from_secs(s),
         };
+        // Known finding F3: a timer more than 2^36 ms after the timer queue's creation panics in
+        // DelayQueue::insert. Unless the scenario asks for it, steer around that region and count it.
+        if !self.allow_huge.get() {
+            let cap = clock::instant_at(SUPPORTED_SPAN_SECS * 1_000_000_000);
+            if deadline > cap {
+                deadline = cap;
+                self.excluded_known.set(self.excluded_known.get() + 1);
+            }
+        }
         let tc = Tc {
             trace_id: 0x1000_0000_0000_0000_0000_0000_0000_0000u128 + ((trace as u128) << 32) + call as u128 + 1,
             span_id: 0x5000_0000 + call as u64,
@@ -536,7 +551,7 @@ impl ClientSim {
                     let d = self.calls.borrow()[call].deadline_ns + (*delta_us as i128) * 1000;
                     let now = clock::now_ns() as i128;
                     // only forward, and never absurdly far (huge deadlines are handled by Advance)
-                    if d > now && d - now < 400 * 86_400 * 1_000_000_000i128 {
+                    if d > now && d - now < 1200 * 86_400 * 1_000_000_000i128 {
                         clock::advance(Duration::from_nanos((d - now) as u64)).await;
                     } else {
                         self.noop();
@@ -637,6 +652,7 @@ pub struct ClientRun {
     pub final_timers: usize,
     pub transport_blocked_at_end: bool,
     pub total_polls: u64,
+    pub excluded_known: u32,
 }
 
 pub fn subscriber_guard(mode: u8) -> Option<tracing::subscriber::DefaultGuard> {
@@ -699,6 +715,7 @@ pub fn run_client(cfg: &ClientCfg, ops: &[COp]) -> ClientRun {
             final_timers: sim.probes.timers.get(),
             transport_blocked_at_end: sim.tr.write_blocked(),
             total_polls: sim.exec.total_polls.get(),
+            excluded_known: sim.excluded_known.get(),
         };
         sim.finish();
         run
